@@ -99,3 +99,87 @@ def identity_bits(eng: Engine, ctx: Ctx, rid: str) -> int:
             isstr = leaf[0] == "fstr" or (leaf[0] == "call" and leaf[2] == ("builtin", "str")) or (is_const(leaf) and isinstance(leaf[1], str))
             ctx.check(isstr, rid, f.qualname, "identity is a str", expected="str(...) or f-string", found=show(leaf)[:80], **eng.loc(f, r.node))
     return n
+
+
+# ============================================================================ decoder naming rule (C03-D4; used by C18, C19)
+def decoder_suffix_format(eng: Engine):
+    """(separator, format spec) of the per-level index suffix the single-field routine appends,
+    extracted from the term `name + f"<sep>{i:<spec>}"` built inside its loop over the index stack."""
+    f = eng.repo.func(eng.single_field_routine)
+    se = eng.symeval(f.qualname)
+    found = set()
+    for lid, info in se.loop_info.items():
+        for var, term in (info.get("body_end") or {}).items():
+            for st in subterms(term):
+                if isinstance(st, tuple) and st and st[0] == "fstr" and len(st[1]) == 2 and is_const(st[1][0]) and st[1][1][0] == "fmt":
+                    fm = st[1][1]
+                    if fm[1][0] == "elem" and isinstance(fm[2], str):
+                        found.add((st[1][0][1], fm[2]))
+    if len(found) != 1:
+        raise AnalysisError(f"decoder index-suffix format not uniquely determined: {sorted(found)}")
+    return next(iter(found))
+
+
+# ============================================================================ C03-D9 derived counts (shared with C09-D1)
+def _is_popcount(t, of):
+    """t == bin(of).count('1') or of.bit_count()."""
+    if t[0] != "call" or t[2][0] != "attr":
+        return False
+    recv, meth = t[2][1], t[2][2]
+    if meth == "count" and len(t[3]) == 1 and t[3][0] == ("const", "1") and recv[0] == "call" and recv[2] == ("builtin", "bin") and len(recv[3]) == 1:
+        return recv[3][0] == of
+    if meth == "bit_count" and not t[3]:
+        return recv == of
+    return False
+
+
+def specialise_single(eng: Engine, key: str, index_depth: int = 1):
+    """Evaluate the single-field routine with the field-name parameter bound to a constant key
+    (the descriptor then folds from the table) and a symbolic index stack of the given depth."""
+    f = eng.repo.func(eng.single_field_routine)
+    params = f.params
+    bind = {params[1]: ("const", key)}
+    return SymEval(eng.ce, f, bind=bind).run()
+
+
+def derived_counts(eng: Engine, ctx: Ctx, rid: str) -> int:
+    ctx.rule(rid, "NSat/NSig/NCell are the population count of the *same* extracted bits of DF394/DF395/DF396; "
+                  "the map builder is invoked after the cell count is stored, for the cell mask only")
+    facts = eng.decoder_facts
+    f = eng.repo.func(eng.single_field_routine)
+    mb = eng.repo.func(eng.map_builder)
+    n = 0
+    msm_counters = {c: src for c, src in facts["derived_counters"].items() if not c.startswith("_")}
+    for cnt, src in sorted(msm_counters.items()):
+        n += 1
+        se = specialise_single(eng, src)
+        sets = [e for e in se.effects if e.kind == "call" and e.term[2] == ("builtin", "setattr") and len(e.term[3]) == 3]
+        val_store = [e for e in sets if not is_const(e.term[3][1]) or e.term[3][1][1] == src or (is_const(e.term[3][1]) and str(e.term[3][1][1]).startswith(src))]
+        cnt_store = [e for e in sets if e.term[3][1] == ("const", cnt)]
+        loc = eng.loc(f, (cnt_store or sets or [se.effects[0]])[0].node)
+        if len(cnt_store) != 1 or not val_store:
+            ctx.bad(rid, f.qualname, f"store of {cnt}", expected=f"setattr(self, {cnt!r}, popcount(bits of {src}))", found=f"{len(cnt_store)} store(s)", **loc)
+            continue
+        stored_val = val_store[0].term[3][2]
+        ok = _is_popcount(cnt_store[0].term[3][2], stored_val) and not cnt_store[0].guards
+        ctx.check(ok, rid, f.qualname, f"{cnt} = popcount({src})", expected=f"population count of the value stored as {src}", found=show(cnt_store[0].term[3][2])[:120]
+                  + (f" under {guard_text(cnt_store[0].guards)}" if cnt_store[0].guards else ""), **loc)
+        calls = [e for e in se.effects if e.kind == "call" and is_self_call(e.term, mb.name)]
+        want_call = src == facts["derived_counters"].get(eng.tables.const.get("NCELL", "NCell"))
+        if want_call:
+            ctx.check(len(calls) == 1 and calls[0].seq > cnt_store[0].seq and not calls[0].guards, rid, f.qualname, "map builder invoked after the cell count is stored",
+                      expected="one unconditional call after the store", found=f"{len(calls)} call(s)", **loc)
+        else:
+            ctx.check(not calls, rid, f.qualname, f"map builder not invoked at {src}", expected="no call", found=f"{len(calls)} call(s)", **loc)
+    # no other field triggers the map builder / counter stores: evaluate with a generic key
+    se = SymEval(eng.ce, f).run()
+    for e in se.effects:
+        if e.kind == "call" and is_self_call(e.term, mb.name):
+            n += 1
+            keys = set()
+            for c, pol in e.guards:
+                if pol and c[0] == "cmp" and c[1] == "==" and is_const(c[3]):
+                    keys.add(c[3][1])
+            ncell_src = facts["derived_counters"].get(eng.tables.const.get("NCELL", "NCell"))
+            ctx.check(ncell_src in keys, rid, f.qualname, "map builder call site guarded by the cell-mask key", expected=f"anam == {ncell_src!r}", found=guard_text(e.guards)[:160], **eng.loc(f, e.node))
+    return n
